@@ -136,6 +136,13 @@ def check(an: Analysis) -> None:
     rl = next((k.value for k in rootc[0].keywords if k.arg == "logger"), None)
     if not is_name(rl, "logger"):
         ob.fail(scope, rootc[0], "the outermost scope does not receive the given logger")
+    gsc = an.cfg(scope)
+    lookup_handlers = [n for n in gsc.nodes if n.kind == "handler" and set(gsc.handler_classes(n.ast)) <= {"LookupError"}]  # type: ignore[arg-type]
+    rn = [n for n in gsc.nodes if n.kind == "call" and n.ast is rootc[0]]
+    for n in rn:
+        w = gsc.ordered(lambda x: x in lookup_handlers, lambda x, n=n: x is n)
+        if w is not None:
+            ob.fail(scope, rootc[0], "a parent-less scope (fresh trace id, logger named after itself) can be built although a scope is current - e.g. when the enclosing scope has already completed: logger and trace id are then not inherited", CFG.show_path(w))
     for c in ctors:
         nm = next((k.value for k in c.keywords if k.arg == "scope"), None)
         if not is_name(nm, scope.param_names()[1]):
@@ -207,6 +214,14 @@ def check(an: Analysis) -> None:
     lp = slog.param_names()
     if len(emits) != 1:
         ob.fail(slog, None, f"ScopeMetrics.log emits {len(emits)} records per call (must be exactly one)")
+    else:
+        from ..kinds import normal_only
+
+        gl = an.cfg(slog)
+        en = [n for n in gl.nodes if n.kind == "call" and n.ast is emits[0]]
+        w = gl.must_pass(lambda n: n in en, exits=("exit-return",), skip_edge=normal_only)
+        if w is not None:
+            ob.fail(slog, emits[0], "a path through ScopeMetrics.log returns without handing the record to the logger (level filtering belongs to the logger at call time): a message the logger would accept is lost", CFG.show_path(w))
     for c in emits:
         ob.inst(slog, c)
         if dotted(c.func.value) != "self._logger":  # type: ignore[union-attr]
